@@ -22,7 +22,7 @@ from . import lib
 AREA = "Pczt"
 
 VALID_FLAGS = [b for b in range(256) if (b >> 3) & 0xF == 0]          # the 16 bytes with bits 3..6 clear
-FLAGS_SMALL = sorted(set(VALID_FLAGS + [8, 16, 32, 64, 255]))          # + one byte per reserved bit + all ones
+FLAGS_SMALL = sorted(set(VALID_FLAGS + [8, 64, 255]))                  # + reserved bits 3 and 6 + all ones
 FLAGS_64 = [b for b in range(256) if (b >> 4) & 0x3 == 0]              # bits 0,1,2,3,6,7 free
 
 
@@ -142,21 +142,391 @@ def emit_cases(ctx, d, path, only=None):
     return total
 
 
+ROLE_CFGS = ["MC_PcztRoles_t1.cfg", "MC_PcztRoles_t2.cfg", "MC_PcztRoles_t3.cfg", "MC_PcztRoles_sFALSE.cfg", "MC_PcztRoles_sTRUE.cfg"]
+ROLE_ACTIONS_T = ["Update", "SignT", "Redact", "RedactSig", "Finalize", "Combine", "Reparse"]
+ROLE_ACTIONS_S = ["SignT", "SignS", "Prove", "Redact", "Compact", "Resolve", "Finalize", "Combine", "Reparse"]
+
+
+def model_check_roles(ctx, d):
+    for cfg in ROLE_CFGS:
+        cov = cfg in ("MC_PcztRoles_t1.cfg", "MC_PcztRoles_sFALSE.cfg") or not ctx.quick()
+        r = lib.tlc(ctx, d, "MC_PcztRoles", cfg, workers=8, timeout=1200, coverage=cov)
+        if cov:
+            lib.require_coverage(r, ROLE_ACTIONS_S if "_s" in cfg else ROLE_ACTIONS_T)
+        elif r.distinct < 10000:
+            raise lib.ToolError("vacuity: MC_PcztRoles/%s explored only %d states" % (cfg, r.distinct))
+        lib.account_tlc(ctx, r)
+
+
 def stage(ctx):
     d = lib.stage_specs(ctx, AREA)
-    for m in ("PcztLattice", "MC_PcztLattice", "MC_PcztCases"):
+    for m in ("PcztLattice", "MC_PcztLattice", "MC_PcztCases", "PcztFrames", "PcztRoles", "MC_PcztRoles", "Trace_PcztRoles"):
         lib.sany(os.path.join(d, m + ".tla"))
     return d
+
+
+# ------------------------------------------------------------------------------------------------
+# spec -> code
+
+def run_merge(ctx, bindir, cases_path, tier, seed):
+    p = lib.run_bin(os.path.join(bindir, "c13_replay"), ["merge", cases_path, tier],
+                    env_extra={"VERIF_SEED": str(seed)}, timeout=3000)
+    return json.loads(p.stdout.strip().splitlines()[-1])
+
+
+def describe_case(m):
+    ps = m["case"]["ps"]
+
+    def party(p):
+        out = {}
+        for k in ("opt", "eq"):
+            if p[k]:
+                out.update(p[k])
+        for k in ("lock", "flags", "tin", "tout", "act", "bsk"):
+            out[k] = p[k]
+        return out
+    want = m["case"]["out"]
+    return "base %s, binding %s, parties %s, predicted %s; %s" % (
+        m["base"], json.dumps(m["binding"]), json.dumps([party(p) for p in ps]),
+        ("join " + json.dumps(party(want["v"]))) if want["ok"] else "conflict", json.dumps(m["detail"])[:900])
+
+
+def report_merge(ctx, mismatches, cap=3):
+    for m in mismatches[:cap]:
+        lib.violation(ctx, {"property": "C13", "kind": m["kind"], "base": m["base"], "case": m["case"], "binding": m["binding"],
+                            "idx": m["idx"], "trees": m["trees"], "seed": m["seed"], "tier": m["tier"], "detail": m["detail"]},
+                      "Combiner::combine disagrees with PcztLattice.Merge: " + describe_case(m))
+
+
+# ------------------------------------------------------------------------------------------------
+# code -> spec
+
+def run_roles(ctx, bindir, nseq, tier, seed, name):
+    path = ctx.path(name)
+    p = lib.run_bin(os.path.join(bindir, "c13_replay"), ["roles", path, str(nseq), tier],
+                    env_extra={"VERIF_SEED": str(seed)}, timeout=3000)
+    res = json.loads(p.stdout.strip().splitlines()[-1])
+    if res.get("failure"):
+        f = res["failure"]
+        return path, res, f
+    return path, res, None
+
+
+def read_trace(path):
+    with open(path) as f:
+        return [json.loads(x) for x in f if x.strip()]
+
+
+def write_trace(path, recs):
+    with open(path, "w") as f:
+        for r in recs:
+            f.write(json.dumps(r) + "\n")
+
+
+def validate_roles(ctx, d, path):
+    ok, k, detail, res = lib.tlc_validate(ctx, d, "Trace_PcztRoles", "Trace_PcztRoles.cfg", path, timeout=1800)
+    lib.account_tlc(ctx, res)
+    return ok, k, detail
+
+
+def sequence_of(res, k):
+    for s in res["seqs"]:
+        if s["first"] <= k <= s["last"]:
+            return s
+    return None
+
+
+def explain(rec):
+    """Which clause of Trace_PcztRoles a rejected record most plainly breaks (for the report only)."""
+    pre, post = rec["pre"], rec["post"]
+    why = []
+    if rec["oc"] == "panic":
+        why.append("the role panicked")
+    for k, txt in (("rt", "parse(serialize(p)) does not re-serialise identically"), ("own", "serialisation differs from the canonical encoding of its content"),
+                   ("get", "getters disagree with the serialised content"), ("z244", "pczt_txid is not the ZIP 244 identifier of the effects"),
+                   ("sigok", "a partial signature does not verify under the ZIP 244 digest of the effects")):
+        if not post.get(k, True):
+            why.append(txt)
+    if post["txid"] != pre["txid"]:
+        why.append("transaction identifier changed %s -> %s" % (pre["txid"], post["txid"]))
+    v1 = (not post["txv6"]) and (not post["iron"]) and post["nv2"] and post["oanchor"] and post["sanchor"] and post["cvcmx"] and post["memo"]
+    if post["enc"] != (1 if v1 else 2):
+        why.append("encoding v%d chosen although the content is %sv1-representable" % (post["enc"], "" if v1 else "not "))
+    if rec["a"] == "extract" and rec["oc"] == "ok" and (rec["txid_tx"] != pre["txid"] or not rec["fields"]):
+        why.append("extracted transaction %s does not have the PCZT's effects / identifier %s" % (rec["txid_tx"], pre["txid"]))
+    if rec["ch"]:
+        why.append("writes: " + ", ".join("%s(%s)" % (c["c"], c["d"]) for c in rec["ch"]))
+    if pre["flags"] != post["flags"] or rec["a"] in ("sign_t", "sign_s", "combine"):
+        why.append("tx_modifiable 0x%02x -> 0x%02x" % (pre["flags"], post["flags"]))
+    return "; ".join(why)
+
+
+def report_roles(ctx, res, recs, k, seed, nseq, tier):
+    rec = recs[k - 1]
+    seq = sequence_of(res, k) or {"first": 1, "last": k, "base": "?", "ops": []}
+    lib.violation(ctx, {"property": "C13", "kind": "roles", "seed": seed, "nseq": nseq, "tier": tier, "index": k,
+                        "sequence": seq, "record": rec, "prefix": recs[seq["first"] - 1:k]},
+                  "role %s (%s) on copy %d of base %s is not allowed by PcztRoles/PcztFrames at trace record %d: %s"
+                  % (rec["a"], rec.get("op") or rec["arg"], rec["cp"], seq["base"], k, explain(rec)))
+
+
+def trace_classes(recs):
+    c = {}
+
+    def hit(k):
+        c[k] = c.get(k, 0) + 1
+    for r in recs:
+        hit("role:" + r["a"])
+        if r["oc"] != "ok":
+            hit("%s:%s" % (r["a"], r["oc"]))
+            continue
+        if r["a"] == "sign_t":
+            hit("sign_t:ht=%d" % r["ht"])
+            if r["pre"]["flags"] != r["post"]["flags"]:
+                hit("sign_t:flags-change")
+        if r["a"] == "combine" and r["ch"]:
+            hit("combine:adds")
+        if r["a"] == "combine" and r["pre"]["flags"] != r["post"]["flags"]:
+            hit("combine:flags-change")
+        if r["post"]["enc"] != r["pre"]["enc"]:
+            hit("encoding:%d->%d" % (r["pre"]["enc"], r["post"]["enc"]))
+        if r["a"] == "extract":
+            hit("extract:ok")
+        for w in r["ch"]:
+            hit("write:%s:%s" % (w["c"], w["d"]))
+    need = ["role:" + a for a in ("io_finalize", "update", "sign_t", "sign_s", "redact", "compact", "resolve", "verify", "finalize",
+                                  "combine", "reparse", "set_anchor", "set_witness", "extract")] + \
+           ["combine:conflict", "combine:adds", "combine:flags-change", "sign_t:flags-change", "encoding:1->2", "encoding:2->1", "extract:ok"] + \
+           ["sign_t:ht=%d" % h for h in (1, 2, 3, 0x81, 0x82, 0x83)]
+    return c, [k for k in need if not c.get(k)]
 
 
 def run(ctx):
     bindir = lib.cargo_build("h_tx", ["c13_replay"])
     d = stage(ctx)
     model_check(ctx, d)
+    model_check_roles(ctx, d)
+    ctx.extra["model_states"] = ctx.states
+
+    # (2) spec -> code
     cases_path = ctx.path("cases.ndjson")
-    n = emit_cases(ctx, d, cases_path)
-    p = lib.run_bin(os.path.join(bindir, "c13_replay"), ["merge", cases_path, ctx.tier],
-                    env_extra={"VERIF_SEED": str(ctx.seed)}, timeout=2400)
-    res = json.loads(p.stdout.strip().splitlines()[-1])
-    lib.log("merge: %s" % json.dumps({k: v for k, v in res.items() if k not in ("classes", "mismatches")}))
-    lib.log(json.dumps(res["mismatches"])[:3000])
+    ncases = emit_cases(ctx, d, cases_path)
+    res = run_merge(ctx, bindir, cases_path, ctx.tier, ctx.seed)
+    report_merge(ctx, res["mismatches"])
+    if res["cases"] < ncases or res["role_cases"] < 500 or res["joins_predicted"] < 1000 or res["conflicts_predicted"] < 1000 \
+            or res["v2_results"] < 50 or res["v1_results"] < 50:
+        raise lib.ToolError("vacuity: merge replay too thin: %s" % json.dumps({k: v for k, v in res.items() if isinstance(v, int)}))
+    lib.log("merge: %d cases (%d with parties made by real roles), %d combines, %d predicted joins / %d conflicts, %d slot classes, %d mismatches"
+            % (res["cases"], res["role_cases"], res["combines"], res["joins_predicted"], res["conflicts_predicted"],
+               res["slot_classes"], len(res["mismatches"])))
+
+    # (3) code -> spec
+    nseq = 400 if ctx.quick() else 240
+    tpath, rres, failure = run_roles(ctx, bindir, nseq, ctx.tier, ctx.seed, "roles.ndjson")
+    recs = read_trace(tpath)
+    accepted = 0
+    if failure:
+        lib.violation(ctx, {"property": "C13", "kind": "roles_driver", "seed": ctx.seed, "nseq": nseq, "tier": ctx.tier, "failure": failure},
+                      "a PCZT produced by a role cannot be observed: %s (base %s, ops %s)"
+                      % (failure["what"], failure["base"], json.dumps(failure["ops"])[:600]))
+    else:
+        ok, k, detail = validate_roles(ctx, d, tpath)
+        if ok:
+            accepted = k
+            classes, missing = trace_classes(recs)
+            if missing:
+                raise lib.ToolError("vacuity: the role driver produced no event of class %s" % ", ".join(missing))
+            ctx.extra["trace_classes"] = {k2: v for k2, v in sorted(classes.items()) if not k2.startswith("write:")}
+            ctx.extra["classes_written_by_roles"] = sorted({k2.split(":", 1)[1] for k2 in classes if k2.startswith("write:")})
+        else:
+            accepted = k - 1
+            report_roles(ctx, rres, recs, k, ctx.seed, nseq, ctx.tier)
+
+    ctx.traces = res["cases"] + accepted
+    for r in recs:
+        if r["a"] == "sign_t" and r["oc"] == "ok" and r["pre"]["flags"] != r["post"]["flags"]:
+            ctx.add_sample({"role": "sign_t", "sighash_type": r["ht"], "tx_modifiable": [r["pre"]["flags"], r["post"]["flags"]], "txid": r["post"]["txid"]})
+            break
+    for r in recs:
+        if r["a"] == "extract" and r["oc"] == "ok":
+            ctx.add_sample({"role": "extract", "pczt_txid": r["pre"]["txid"], "extracted_txid": r["txid_tx"]})
+            break
+    ctx.add_sample({"merge": "TLC case kinds replayed", "per_kind": res["per_kind"]})
+    ctx.extra["merge"] = {k: v for k, v in res.items() if k not in ("mismatches", "classes", "role_classes")}
+    ctx.extra["merge"]["slot_classes_bound"] = res["classes"]
+    ctx.extra["merge"]["slot_classes_written_by_real_roles"] = res["role_classes"]
+    ctx.extra["roles"] = {"sequences": rres["sequences"], "events": rres["events"], "stats": rres["stats"]}
+    lib.mc_evidence(
+        ctx,
+        rule="R: every TLC-enumerated party assignment (kinds opt1/opt2/eq1/lock/flags2/flags3/listsT/listsO/four) is bound to "
+             "concrete slots of real PCZTs and executed with Combiner::combine under every grouping and order of the parties "
+             "(2 / 12 / 120 trees + the n-ary fold); verdict and serialised result compared byte-for-byte with the predicted join. "
+             "V: every logged role application is validated by TLC against Trace_PcztRoles. traces_validated = merge cases + "
+             "accepted trace records; distinct_nontrivial = distinct predicted join results + distinct (role, write set) pairs",
+        evaluations=res["combines"] + len(recs),
+        distinct_nontrivial=res["distinct_results"] + len({(r["a"], json.dumps(r["ch"])) for r in recs if r["ch"]}),
+        extra={"exhaustive": False, "flag_bytes_pairs_exhaustive": True, "bases": res["bases"]},
+        assumptions=[
+            "PCZTs are observed through an own mirror of the v1/v2 postcard encodings (harness) and the public getters; a change of "
+            "the wire layout itself makes the mirror fail (tool error), it is not judged",
+            "parties with arbitrary slot contents are made with the own encoder and Pczt::parse; parties made by real roles cover "
+            "the slots the Updater / Signer / Redactor can write",
+            "merge laws are claimed for copies within one stage (PcztLattice!SameStage); outside, the pinned merge is not a join "
+            "(TLC-checked witness NonAssocWitness) and is not judged; Sapling spend/output lists of different lengths are not modelled",
+            "a Sapling anchor that is absent and the all-zero anchor of a bundle without spends are one value (v1 has no absent anchor)",
+            "Redactor preconditions respected by the driver: note fields are not cleared while an action is in compact form; "
+            "`rho` is not cleared before `rseed`; anchors are cleared only in v6 PCZTs",
+            "own ZIP 244 txid / transparent signature digest cover v5; for v6 the identifier is judged relationally "
+            "(unchanged by every role, equal to the extracted transaction's)",
+            "proofs (Prover, extraction of shielded transactions) only in the thorough tier; validity of proofs and shielded "
+            "signatures beyond what the Transaction Extractor verifies is not decided",
+        ])
+
+
+# ------------------------------------------------------------------------------------------------
+
+def replay(ctx, path):
+    bindir = lib.cargo_build("h_tx", ["c13_replay"])
+    with open(path) as f:
+        rep = json.load(f)
+    kind = rep.get("kind")
+    if kind in ("merge", "merge_roles"):
+        p = lib.run_bin(os.path.join(bindir, "c13_replay"), ["rerun", path], timeout=600)
+        out = json.loads(p.stdout.strip().splitlines()[-1])
+        if out["mismatch"]:
+            m = dict(rep)
+            m["detail"] = out["mismatch"]
+            report_merge(ctx, [m])
+        else:
+            lib.log("replay: the case now agrees with the specification")
+    elif kind in ("roles", "roles_driver"):
+        d = stage(ctx)
+        tpath, rres, failure = run_roles(ctx, bindir, rep["nseq"], rep["tier"], rep["seed"], "replay_roles.ndjson")
+        if failure:
+            lib.violation(ctx, {"property": "C13", "kind": "roles_driver", "seed": rep["seed"], "nseq": rep["nseq"], "tier": rep["tier"],
+                                "failure": failure}, "a PCZT produced by a role cannot be observed: %s" % failure["what"])
+            return
+        recs = read_trace(tpath)
+        ok, k, detail = validate_roles(ctx, d, tpath)
+        if not ok:
+            report_roles(ctx, rres, recs, k, rep["seed"], rep["nseq"], rep["tier"])
+        else:
+            lib.log("replay: the re-executed role sequences now satisfy the specification")
+    else:
+        raise lib.ToolError("unknown replay kind")
+
+
+# ------------------------------------------------------------------------------------------------
+
+def _expect_reject(ctx, d, recs, what, at=None):
+    path = ctx.path("self_%d.ndjson" % _expect_reject.n)
+    _expect_reject.n += 1
+    write_trace(path, recs)
+    ok, k, detail = validate_roles(ctx, d, path)
+    if ok:
+        raise lib.ToolError("selftest: corruption not detected (%s)" % what)
+    if at is not None and k != at:
+        raise lib.ToolError("selftest: corruption (%s) rejected at record %d, expected %d" % (what, k, at))
+    lib.log("selftest ok: %s -> rejected at record %d" % (what, k))
+
+
+_expect_reject.n = 0
+
+
+def selftest(ctx):
+    """Binding demonstration. V: a fresh trace of the real roles is accepted; one corrupted field per
+    clause of Trace_PcztRoles (and a dropped event) must be rejected at its index. R: a perturbed
+    prediction (verdict, slot value, flag byte, encoding-relevant slot) must be reported by the harness."""
+    bindir = lib.cargo_build("h_tx", ["c13_replay"])
+    d = stage(ctx)
+    tpath, rres, failure = run_roles(ctx, bindir, 60, "quick", ctx.seed, "roles.ndjson")
+    if failure:
+        raise lib.ToolError("selftest: role driver failed: %s" % failure["what"])
+    recs = read_trace(tpath)
+    ok, k, detail = validate_roles(ctx, d, tpath)
+    if not ok:
+        raise lib.ToolError("selftest: fresh trace rejected at %d: %s" % (k, detail[:400]))
+
+    def corrupt(what, pred, mut):
+        for i, r in enumerate(recs):
+            if pred(r):
+                c = json.loads(json.dumps(recs[:i + 1]))
+                mut(c[i])
+                _expect_reject(ctx, d, c, what, at=i + 1)
+                return
+        raise lib.ToolError("selftest: no suitable record for: " + what)
+
+    okr = lambda a: (lambda r: r["a"] == a and r["oc"] == "ok")
+    corrupt("Signer leaves shielded-modifiable set", lambda r: okr("sign_t")(r) and r["pre"]["flags"] & 0x80,
+            lambda r: r["post"].__setitem__("flags", r["post"]["flags"] | 0x80))
+    corrupt("Signer clears inputs-modifiable under ANYONECANPAY", lambda r: okr("sign_t")(r) and r["ht"] & 0x80 and r["pre"]["flags"] & 1,
+            lambda r: r["post"].__setitem__("flags", r["post"]["flags"] & ~1))
+    corrupt("Signer does not record SIGHASH_SINGLE", lambda r: okr("sign_t")(r) and r["ht"] & 0x7f == 3,
+            lambda r: r["post"].__setitem__("flags", r["post"]["flags"] & ~4))
+    corrupt("signature missing after Sign", okr("sign_t"), lambda r: r["post"].__setitem__("sigs", []))
+    corrupt("a role changes the txid", okr("update"), lambda r: r["post"].__setitem__("txid", "00" * 32))
+    corrupt("Redactor touches an effect field", okr("redact"),
+            lambda r: r["ch"].append({"c": "transparent.inputs[].script_pubkey", "d": "mod"}))
+    corrupt("Redactor clears an optional effect (sequence)", okr("redact"),
+            lambda r: r["ch"].append({"c": "transparent.inputs[].sequence", "d": "del"}))
+    corrupt("Updater writes outside its frame", okr("update"), lambda r: r["ch"].append({"c": "orchard.actions[].spend.alpha", "d": "mod"}))
+    corrupt("Signer writes a proprietary field", okr("sign_t"), lambda r: r["ch"].append({"c": "global.proprietary{}", "d": "add"}))
+    corrupt("Spend Finaliser clears a required lock time", okr("finalize"),
+            lambda r: r["ch"].append({"c": "transparent.inputs[].required_height_lock_time", "d": "del"}))
+    corrupt("Combiner drops a field", lambda r: okr("combine")(r) and r["ch"], lambda r: r["ch"][0].__setitem__("d", "del"))
+    corrupt("Combiner merges inputs-modifiable towards true", lambda r: okr("combine")(r) and (r["pre"]["flags"] ^ r["oflags"]) & 1,
+            lambda r: r["post"].__setitem__("flags", r["post"]["flags"] | 1))
+    corrupt("Combiner succeeds on conflicting copies", okr("combine"), lambda r: r.__setitem__("ncf", 2))
+    corrupt("Combiner refuses compatible copies", lambda r: r["a"] == "combine" and r["oc"] == "conflict", lambda r: r.__setitem__("ncf", 0))
+    corrupt("v2 chosen although v1 suffices", lambda r: r["oc"] == "ok" and r["a"] != "extract" and r["post"]["enc"] == 1,
+            lambda r: r["post"].__setitem__("enc", 2))
+    corrupt("v1 chosen for a v6 transaction", lambda r: r["oc"] == "ok" and r["a"] not in ("extract", "io_finalize") and r["post"]["txv6"],
+            lambda r: r["post"].__setitem__("enc", 1))
+    corrupt("parse(serialize(p)) differs", okr("reparse"), lambda r: r["post"].__setitem__("rt", False))
+    corrupt("pczt_txid is not the ZIP 244 identifier", okr("redact"), lambda r: r["post"].__setitem__("z244", False))
+    corrupt("signature over another digest", okr("sign_t"), lambda r: r["post"].__setitem__("sigok", False))
+    corrupt("extracted transaction has another txid", okr("extract"), lambda r: r.__setitem__("txid_tx", "11" * 32))
+    corrupt("a role panics", okr("verify"), lambda r: r.__setitem__("oc", "panic"))
+    corrupt("a refused role changed the copy", lambda r: r["oc"] == "err" and r["a"] != "extract",
+            lambda r: r["post"].__setitem__("flags", r["post"]["flags"] ^ 4))
+    corrupt("IO Finaliser leaves the bits set on a shielded transaction", lambda r: r["a"] == "io_finalize" and r["i"] == 1,
+            lambda r: r["post"].__setitem__("flags", r["post"]["flags"] | 0x80))
+    # a dropped event: the next event on that copy no longer starts from the recorded state
+    for i, r in enumerate(recs):
+        if r["oc"] == "ok" and r["a"] == "sign_t" and r["ch"]:
+            nxt = next((j for j in range(i + 1, len(recs)) if recs[j]["cp"] == r["cp"] or recs[j]["a"] == "io_finalize"), None)
+            if nxt is not None and recs[nxt]["a"] != "io_finalize":
+                _expect_reject(ctx, d, recs[:i] + recs[i + 1:], "dropped event", at=nxt)
+                break
+    else:
+        raise lib.ToolError("selftest: no event to drop")
+
+    # R: perturbed predictions
+    cases_path = ctx.path("cases.ndjson")
+    emit_cases(ctx, d, cases_path, only=("opt1", "flags3"))
+    lines = [json.loads(x) for x in open(cases_path) if x.strip()]
+    trees = [x for x in lines if "trees" in x]
+    cases = [x for x in lines if "trees" not in x]
+
+    def perturbed(what, pred, mut):
+        c = json.loads(json.dumps(next(x for x in cases if pred(x))))
+        mut(c)
+        pp = ctx.path("perturbed_%d.ndjson" % perturbed.n)
+        perturbed.n += 1
+        write_trace(pp, trees + [c])
+        res = run_merge(ctx, bindir, pp, "quick", ctx.seed)
+        if not res["mismatches"]:
+            raise lib.ToolError("selftest: perturbed prediction not reported (%s)" % what)
+        lib.log("selftest ok: %s -> %d mismatching bindings reported" % (what, len(res["mismatches"])))
+    perturbed.n = 0
+    opt1 = lambda f: (lambda x: x["k"] == "opt1" and f([p["opt"]["o1"] for p in x["ps"]]))
+    perturbed("join predicted as conflict", opt1(lambda v: v == [0, 1, 0]), lambda c: c["out"].__setitem__("ok", False))
+    perturbed("conflict predicted as join", opt1(lambda v: v == [1, 2, 0]),
+              lambda c: c.__setitem__("out", {"ok": True, "v": dict(c["ps"][0])}))
+    perturbed("slot predicted empty", opt1(lambda v: v == [0, 0, 2]), lambda c: c["out"]["v"]["opt"].__setitem__("o1", 0))
+    perturbed("slot predicted with the other value", opt1(lambda v: v == [1, 0, 1]), lambda c: c["out"]["v"]["opt"].__setitem__("o1", 2))
+    perturbed("flag bit predicted wrongly", lambda x: x["k"] == "flags3" and x["out"]["ok"] and x["out"]["v"]["flags"] & 1 == 0
+              and any(p["flags"] & 1 for p in x["ps"]), lambda c: c["out"]["v"].__setitem__("flags", c["out"]["v"]["flags"] | 1))
+    perturbed("reserved flag bit accepted", lambda x: x["k"] == "flags3" and not x["out"]["ok"] and all(p["flags"] in (0, 8) for p in x["ps"]),
+              lambda c: c.__setitem__("out", {"ok": True, "v": dict(c["ps"][0], flags=0)}))
+    lib.log("selftest ok: %d trace corruptions rejected, %d perturbed predictions reported" % (_expect_reject.n, perturbed.n))
